@@ -602,8 +602,15 @@ class MarkdownNormalizer(Renderer):
         link_text = self.render_children(element)
         link_title = _normalize_title_quotes(element.title) if element.title else None
         assert self.root_node
+        # Definitions hold the title as written; compare it as render_link_ref_def writes it, so
+        # that a link by reference stays one whatever delimiters its definition's title had.
         label = next(
-            (k for k, v in self.root_node.link_ref_defs.items() if v == (element.dest, link_title)),
+            (
+                k
+                for k, (dest, title) in self.root_node.link_ref_defs.items()
+                if dest == element.dest
+                and (_normalize_title_quotes(title, raw=True) if title else None) == link_title
+            ),
             None,
         )
         if label is not None:
